@@ -617,7 +617,9 @@ class Prog:
             else:
                 e = ("mod", e, 1009)
             val = Ev(self, 60000).block(("block", ctx.stmts, e), {})
-            text = f"{name} : {ann} : " + self.comptime_text(ctx, ("cast", ann, e)) + ";"
+            # the arithmetic is pinned to i64 first: a cast re-types untyped literal arithmetic below it, so `u8.((20 * 8 * 9) % 251)`
+            # is computed in u8 (wraps at 256) while the reference evaluates it with unbounded integers
+            text = f"{name} : {ann} : " + self.comptime_text(ctx, ("cast", ann, ("cast", "i64", e))) + ";"
         else:
             val = r.range(lo, hi)
             text = f"{name} : {ann} : {val};" if ann else f"{name} :: {val};"
